@@ -875,7 +875,8 @@ def dropValue (m : MMap) (cs : Cells) (k i : Nat) : Cells × MMap :=
 def removeAt (m : MMap) (cs : Cells) (h : HPos) (i : Nat) (to : Option (Nat × Nat)) : Option (Cells × MMap × VIt) := do
   let kc ← m.kderef cs h                     -- :1066 `keyIter->GetCount()`
   chk (i < kc.2)                             -- :1066 `MOMO_CHECK(valueIndex < keyIter->GetCount())`
-  pure ((m.dropValue cs kc.1 i).1, (m.dropValue cs kc.1 i).2, moved h (snap (m.dropValue cs kc.1 i).1 m.vcell) to)
+  let k ← m.mutKey cs h                      -- :1067 -> Remove(ConstIterator) :1073-1075 MakeMutableIterator: the key iterator must be this map's
+  pure ((m.dropValue cs k i).1, (m.dropValue cs k i).2, moved h (snap (m.dropValue cs k i).1 m.vcell) to)
 
 /-- `Remove(ConstIterator)` :1070-1085 -/
 def remove (m : MMap) (cs : Cells) (it : VIt) (to : Option (Nat × Nat)) : Option (Cells × MMap × VIt) := do
@@ -903,10 +904,19 @@ def removeKeyByKey (m : MMap) (cs : Cells) (k : Nat) : Cells × MMap × Nat :=
   | some vs => (bump (bump cs m.kcell) m.vcell, { m with kv := m.kv.filter (fun p => !(p.1 == k)) }, vs.length)
   | none => (cs, m, 0)
 
+/-- what `Remove(pairFilter)` leaves of one value array: a removed value is overwritten by the last one (:1079-1081) and
+    the scan continues at the same index (:1084 `pvMakeIterator(…, valueIndex, true)`) -/
+def swapFilter (p : Nat → Bool) : Nat → Nat → List Nat → List Nat
+  | 0, _, l => l
+  | fuel + 1, i, l =>
+    match l[i]? with
+    | none => l
+    | some x => if p x then swapFilter p fuel i ((l.set i (l.getLast?.getD 0)).dropLast) else swapFilter p fuel (i + 1) l
+
 /-- `Remove(pairFilter)` :1087-1101 with the filter `value % mo == r`: one increment of the value version per removed value -/
 def removeIf (m : MMap) (cs : Cells) (mo r : Nat) : Cells × MMap × Nat :=
   let n := (m.kv.map (fun p => (p.2.filter (fun v => v % mo == r)).length)).sum
-  (bumpN cs m.vcell n, { m with kv := m.kv.map (fun p => (p.1, p.2.filter (fun v => !(v % mo == r)))) }, n)
+  (bumpN cs m.vcell n, { m with kv := m.kv.map (fun p => (p.1, swapFilter (fun v => v % mo == r) (2 * p.2.length) 0 p.2)) }, n)
 
 /-- `ResetKey` :1140-1145 -> HashSet::ResetKey -/
 def resetKey (m : MMap) (cs : Cells) (h : HPos) (k' : Nat) : Option MMap := do
